@@ -17,8 +17,15 @@ func init() {
 	simrt.Register(&simrt.Scenario{
 		Prop: "C12", Name: "mb-close", Count: tiered(400, 160000),
 		Run: c12Mailbox, MaxOps: 6 << 20, Horizon: 4 * time.Hour,
-		Doc: "full stack over the stub relay; at a tape-chosen moment of an established connection (idle, mid-transfer) the client side, the server side or both call Close (1-2 concurrent callers, then once more); bounded return, both applications' blocked Read/Write fail, and after the listener and dialer are shut down no goroutine or ticker of gbn/mailbox is left",
+		Doc: "full stack over the stub relay; at a tape-chosen moment of an established connection (idle, mid-transfer) the client side, the server side or both call Close (1-2 concurrent callers, then once more), in one run of five with the relay down or restarted (mailboxes lost) at that moment; bounded return, both applications' blocked Read/Write fail, and after the listener and dialer are shut down no goroutine or ticker of gbn/mailbox is left",
 	})
+}
+
+func relayCause(down string) string {
+	if down == "" {
+		return ""
+	}
+	return "/relay-" + down
 }
 
 func c12Mailbox(rc *simrt.RunCtx) {
@@ -77,6 +84,30 @@ func c12Mailbox(rc *simrt.RunCtx) {
 		ci, si = c2, s2
 	}
 	time.Sleep(time.Duration(rc.Pick(3000, "wl.close-at")) * time.Millisecond)
+	// sometimes the relay is down (all calls fail) or has been restarted (all
+	// mailboxes lost as well) when Close is called, for a while or for good:
+	// the FIN cannot travel, Close must return all the same
+	relayDown := ""
+	switch rc.Pick(5, "wl.relaydown") {
+	case 3:
+		relayDown = "outage"
+	case 4:
+		relayDown = "restart"
+	}
+	if relayDown != "" {
+		until := rc.Now() + time.Duration(2+rc.Pick(30, "wl.down-for"))*time.Second
+		if rc.Pick(2, "wl.down-forever") == 1 {
+			until = rc.Now() + 3*time.Hour
+		}
+		if relayDown == "outage" {
+			rl.outage(until)
+		} else {
+			rl.restart(until)
+		}
+		rc.Knob("relay-down", relayDown)
+		// long enough for data / keepalive traffic to run into the failure
+		time.Sleep(time.Duration(rc.Pick(15000, "wl.down-before-close")) * time.Millisecond)
+	}
 	tClose := rc.Now()
 	type res struct {
 		who string
@@ -105,14 +136,28 @@ func c12Mailbox(rc *simrt.RunCtx) {
 		select {
 		case r := <-out:
 			if r.d > bound {
-				rc.Violate("c12.close-slow", "mailbox/"+r.who, "%s Close took %v (bound %v)", r.who, r.d, bound)
+				rc.Violate("c12.close-slow", "mailbox/"+r.who+relayCause(relayDown), "%s Close took %v (bound %v)", r.who, r.d, bound)
 			}
 		case <-time.After(bound + 30*time.Second):
-			rc.Violate("c12.close-hangs", "mailbox/"+who, "a Close call on a mailbox connection has not returned %v after it was invoked", rc.Now()-tClose)
+			rc.Violate("c12.close-hangs", "mailbox/"+who+relayCause(relayDown), "a Close call on a mailbox connection has not returned %v after it was invoked", rc.Now()-tClose)
 			i = n
 		}
 	}
 	if rc.Failed() {
+		st.shutdown()
+		return
+	}
+	if relayDown != "" {
+		// the closing side's own calls must fail; the peer cannot be told
+		// while the relay is down (its keepalive is C13's business)
+		time.Sleep(2 * time.Second)
+		a, b := st.C.snapshot(ci), st.S.snapshot(si)
+		if (who != "server" && a.closedAt == 0) || (who != "client" && b.closedAt == 0) {
+			rc.Violate("c12.own-calls-hang", "mailbox/"+who+relayCause(relayDown), "2 s after Close returned the closing application's own blocked Read/Write have not failed (client closed=%v server closed=%v)", a.closedAt > 0, b.closedAt > 0)
+		} else {
+			rc.Probe("c12.mb-closed-with-relay-down")
+			rc.Progress()
+		}
 		st.shutdown()
 		return
 	}
